@@ -74,6 +74,8 @@ def parse_type(s: str) -> TypeSpec:
         return TypeSpec(b, elem=parse_type(rest))
     if s.startswith("opt:"):
         return TypeSpec("opt", elem=parse_type(s[4:]))
+    if s.startswith("alias:"):
+        return TypeSpec("alias", cls=s[6:])        # the same object as another (dotted) parameter
     if s.startswith("obj:"):
         return TypeSpec("obj", cls=s[4:])
     if s.startswith("(") and s.endswith(")"):
@@ -86,6 +88,9 @@ def static_matches(ts: TypeSpec, v, repo=None, exact=False) -> bool:
     from .values import is_boolv, is_intv, is_numv
     if ts.base == "any":
         return True
+    if ts.base == "alias":
+        from .values import ObjRef as _ObjRef
+        return isinstance(v, _ObjRef)
     if ts.base in ("series", "frame"):
         return isinstance(v, Opaque) and v.tag == ts.base
     if ts.base == "opt":
